@@ -20,7 +20,8 @@ var Registry = map[string]func(){
 
 // a three-state protocol: S0 (server agency) --1--> S1 (client agency) --2--> S2 (server
 // agency) --3--> Done (nobody); S0 --5--> S2 keeps the agency with the server (so a message can
-// follow another from the same side), S1 --4--> S1 is a self-loop
+// follow another from the same side), S1 --4--> S1 is a self-loop, S2 --6--> S0 leads back to the
+// initial state
 func refNext(cur protocol.State, t uint8) (protocol.State, bool) {
 	switch {
 	case cur == s0 && t == 1:
@@ -33,6 +34,8 @@ func refNext(cur protocol.State, t uint8) (protocol.State, bool) {
 		return s1, true
 	case cur == s2 && t == 3:
 		return done, true
+	case cur == s2 && t == 6:
+		return s0, true
 	}
 	return cur, false
 }
@@ -51,7 +54,7 @@ func stateMap(t1, t2 time.Duration, probe func() time.Duration) protocol.StateMa
 	return protocol.StateMap{
 		s0:   {Agency: protocol.AgencyServer, Timeout: t1, Transitions: []protocol.StateTransition{{MsgType: 1, NewState: s1}, {MsgType: 5, NewState: s2}}},
 		s1:   {Agency: protocol.AgencyClient, Timeout: t1, TimeoutFunc: probe1, Transitions: []protocol.StateTransition{{MsgType: 2, NewState: s2}, {MsgType: 4, NewState: s1}}},
-		s2:   {Agency: protocol.AgencyServer, Timeout: t2, TimeoutFunc: probe, Transitions: []protocol.StateTransition{{MsgType: 3, NewState: done}}},
+		s2:   {Agency: protocol.AgencyServer, Timeout: t2, TimeoutFunc: probe, Transitions: []protocol.StateTransition{{MsgType: 3, NewState: done}, {MsgType: 6, NewState: s0}}},
 		done: {Agency: protocol.AgencyNone},
 	}
 }
@@ -99,7 +102,7 @@ func RecvGate() {
 		}})
 	sym.RunUntilBlocked(protocol.VerifStateLoopBody(p)) // initial state and its ready token
 	t1, t2 := sym.U8("type1"), sym.U8("type2")
-	sym.Assume(t1 <= 5 && t2 <= 5)
+	sym.Assume(t1 <= 6 && t2 <= 6)
 	protocol.VerifQueueRecv(p, msg(t1))
 	protocol.VerifQueueRecv(p, msg(t2))
 	blocked := sym.RunUntilBlocked(func() { protocol.VerifRecvLoop(p) })
@@ -152,7 +155,7 @@ func StateStep() {
 	}
 	p := protocol.VerifLoopProtocol(protocol.ProtocolConfig{Name: "t", Role: role(server), StateMap: stateMap(0, 0, nil), InitialState: start})
 	t1, t2 := sym.U8("type1"), sym.U8("type2")
-	sym.Assume(t1 <= 5 && t2 <= 5)
+	sym.Assume(t1 <= 6 && t2 <= 6)
 	run, results := protocol.VerifRunStateLoop(p, []protocol.Message{msg(t1), msg(t2)})
 	blocked := sym.RunUntilBlocked(run)
 	sym.Reach("ran")
@@ -198,6 +201,14 @@ func Timeouts() {
 	}
 	probe1 = nil
 	switch scenario {
+	case 5: // S0 -> S2 -> S0: the initial state entered again by a transition is a state like any
+		// other: its timeout is armed, and a stall there is reported and stops the protocol
+		p = protocol.VerifLoopProtocol(protocol.ProtocolConfig{Name: "t", Role: role(false), StateMap: stateMap(short, 0, nil), InitialState: s0})
+		run, res := protocol.VerifRunStateLoop(p, []protocol.Message{msg(5), msg(6)})
+		blocked := sym.RunUntilBlocked(run)
+		sym.Reach("ran")
+		sym.Assert(len(res[0]) == 1 && len(res[1]) == 1, "both transitions are answered")
+		sym.Assert(!blocked && protocol.VerifErrorCount(p) == 1 && protocol.VerifStopped(p), "a stall in the initial state re-entered by a transition is reported like in any timed state")
 	case 4: // S0 -> S1 (timed), then three messages that stay in S1, each well within the limit:
 		// every re-entry stops the running timer and arms a fresh one (the limit counts from
 		// the holder's last move), so no timeout is reported while the conversation progresses
